@@ -59,6 +59,19 @@ func (o iterObserver) Lookup(fox.ResponseWriter, *http.Request) (*fox.Route, fox
 // committed model, the open transaction (if any) with the transaction's model,
 // and every live snapshot with the model frozen when it was taken.
 func (e *Engine) CheckState() error {
+	// Commit and Abort are documented no-ops on a read-only transaction, however stale its view is: ending the kept
+	// read-only transactions and snapshots again after every step must neither publish their view nor retire them.
+	for i, s := range e.Snaps {
+		if s.txn == nil {
+			continue
+		}
+		if (e.Steps+i)%2 == 0 {
+			s.txn.Commit()
+		} else {
+			s.txn.Abort()
+		}
+		e.Stat["readonly-txn-ended-again"]++
+	}
 	if e.Cfg.Observers {
 		if err := e.observe("router", e.F, e.Model, true); err != nil {
 			return err
